@@ -7,19 +7,22 @@ Import ListNotations.
 From BWGrammar Require Import Grammar GrammarProofs Hooks HooksProofs.
 From BWGrammar.Gen Require Import GrammarGen.
 From BWEngine Require Import Chan ChanProofs.
+From Coq.Strings Require Import Byte.
+From BWLexer Require Unicode Lexer LexerProofs.
+From BWLexer.Gen Require LexTablesGen.
 
 (* the parser model terminates on every token sequence and answers accept or reject *)
 Theorem C08_parser_total : forall ts,
-  (exists rest tr, parse bql tok_eof START ts = Ok rest tr) \/ parse bql tok_eof START ts = Reject.
+  (exists rest tr, Grammar.parse bql tok_eof START ts = Ok rest tr) \/ Grammar.parse bql tok_eof START ts = Reject.
 Proof.
-  intros ts. destruct (parse bql tok_eof START ts) as [rest tr| |] eqn:E; [left; eauto | right; reflexivity |].
-  exfalso. revert E. unfold parse.
-  destruct (consume bql tok_eof (fuel_for ts) START ts) eqn:Ec; try discriminate.
-  - destruct (N.eqb (cur tok_eof rest) tok_eof); discriminate.
+  intros ts. destruct (Grammar.parse bql tok_eof START ts) as [rest tr| |] eqn:E; [left; eauto | right; reflexivity |].
+  exfalso. revert E. unfold Grammar.parse.
+  destruct (Grammar.consume bql tok_eof (Grammar.fuel_for ts) START ts) eqn:Ec; try discriminate.
+  - destruct (N.eqb (Grammar.cur tok_eof rest) tok_eof); discriminate.
   - intros _. eapply consume_fuel_enough; [| | exact Ec].
     + assert (H : ll1_ok bql START tok_eof = true) by (vm_compute; reflexivity).
       apply (ll1_ok_parts bql START tok_eof H).
-    + unfold fuel_for. auto.
+    + unfold Grammar.fuel_for. auto.
 Qed.
 Print Assumptions C08_parser_total.
 
@@ -47,3 +50,21 @@ Theorem C08_undrained_leak_refuted :
   exists s, steps nat 2 false (init nat [1; 2; 3; 4]%nat 0) s /\ terminal nat 2 false s /\ closed nat s = false.
 Proof. exact undrained_leak_refuted. Qed.
 Print Assumptions C08_undrained_leak_refuted.
+
+(* front end composed: for EVERY byte string, the lexer model terminates (run loop reaches nil: the channel is closed),
+   emits exactly one terminal token (EOF or Error) in last position, and the parser model over the emitted token kinds
+   terminates with accept or reject.  (Lexer model and its theorems: property C16, coq/Lexer; token numbering of both
+   generated tables agrees on EOF.) *)
+Theorem C08_front_end_total : forall text : list byte,
+  snd (BWLexer.Lexer.lex_with BWLexer.Unicode.go_uni text) = true /\
+  (exists pre t, fst (BWLexer.Lexer.lex_with BWLexer.Unicode.go_uni text) = pre ++ [t] /\ (BWLexer.Lexer.tk_kind t = BWLexer.Gen.LexTablesGen.ItemError \/ BWLexer.Lexer.tk_kind t = BWLexer.Gen.LexTablesGen.ItemEOF) /\
+                 Forall (fun x => ~ (BWLexer.Lexer.tk_kind x = BWLexer.Gen.LexTablesGen.ItemError \/ BWLexer.Lexer.tk_kind x = BWLexer.Gen.LexTablesGen.ItemEOF)) pre) /\
+  ((exists rest tr, Grammar.parse bql tok_eof START (map BWLexer.Lexer.tk_kind (fst (BWLexer.Lexer.lex_with BWLexer.Unicode.go_uni text))) = Ok rest tr) \/
+   Grammar.parse bql tok_eof START (map BWLexer.Lexer.tk_kind (fst (BWLexer.Lexer.lex_with BWLexer.Unicode.go_uni text))) = Reject) /\
+  BWLexer.Gen.LexTablesGen.ItemEOF = tok_eof /\ BWLexer.Gen.LexTablesGen.ItemError = tok_error.
+Proof.
+  intros text. destruct (BWLexer.Lexer.lex_with BWLexer.Unicode.go_uni text) as [ts fin] eqn:E.
+  destruct (BWLexer.LexerProofs.lex_with_good BWLexer.Unicode.go_uni text ts fin E) as (H1 & _ & H3). cbn [fst snd].
+  split; [exact H1|]. split; [exact H3|]. split; [apply C08_parser_total|]. split; reflexivity.
+Qed.
+Print Assumptions C08_front_end_total.
